@@ -327,6 +327,7 @@ def run_harness(batch: Tuple[str, ...], nworkers: int, prefix: List[int], fine: 
             s._kill_all()
         except Exception:
             pass
+        harness.reset_log()  # the failing processors raise ONE exception object: its traceback chain (frames, this execution) grows with every raise
 
 
 def run_pair_harness(batch: Tuple[str, ...], prefix: List[int]) -> sched.Execution:
@@ -359,6 +360,7 @@ def run_pair_harness(batch: Tuple[str, ...], prefix: List[int]) -> sched.Executi
             s._kill_all()
         except Exception:
             pass
+        harness.reset_log()  # the failing processors raise ONE exception object: its traceback chain (frames, this execution) grows with every raise
 
 
 def judge_pair_factory(batch: Tuple[str, ...]):
